@@ -22,41 +22,12 @@ use yaml_rust::{Yaml, YamlEmitter, YamlLoader};
 // Watchdog: a load or serve step that does not return is reported, not waited for
 // ---------------------------------------------------------------------------
 
-static SLOTS: Mutex<Vec<Option<(std::time::Instant, String)>>> = Mutex::new(Vec::new());
-static SLOT_COUNTER: AtomicU64 = AtomicU64::new(0);
-thread_local! {
-    static MY_SLOT: usize = {
-        let i = SLOT_COUNTER.fetch_add(1, Ordering::SeqCst) as usize;
-        let mut s = SLOTS.lock().unwrap();
-        while s.len() <= i { s.push(None); }
-        i
-    };
-}
+const HANG_SECS: u64 = 300;
 
+/// Publish the text being loaded/served so that an abort or a hang can name it.
 fn guard<T>(text: &str, f: impl FnOnce() -> T) -> T {
-    let i = MY_SLOT.with(|s| *s);
-    SLOTS.lock().unwrap()[i] = Some((std::time::Instant::now(), text.to_string()));
-    let r = f();
-    SLOTS.lock().unwrap()[i] = None;
-    r
-}
-
-fn start_watchdog() {
-    std::thread::spawn(|| loop {
-        std::thread::sleep(std::time::Duration::from_secs(2));
-        let s = SLOTS.lock().unwrap();
-        for slot in s.iter().flatten() {
-            if slot.0.elapsed() > std::time::Duration::from_secs(60) {
-                let root = crate::common::report::verif_root();
-                let dir = format!("{root}/replays/C19");
-                let _ = std::fs::create_dir_all(&dir);
-                let path = format!("{dir}/{:016x}.json", crate::common::util::fnv64(slot.1.as_bytes()));
-                let _ = std::fs::write(&path, serde_json::to_string_pretty(&json!({"property":"C19","oracle":"non-termination","what":"loading/serving this configuration did not return within 60 s","case":{"engine":"c19","yaml":slot.1}})).unwrap());
-                println!("VIOLATION property=C19 replay={path}");
-                std::process::exit(1);
-            }
-        }
-    });
+    let _g = crate::common::supervise::publish(0, text.as_bytes());
+    f()
 }
 
 // ---------------------------------------------------------------------------
@@ -660,8 +631,13 @@ fn dns_serve(text: &str) -> Vec<Violation> {
 
 pub fn run(tier: &str, replay: Option<Value>) -> ! {
     let mut rep = Report::new("C19", if replay.is_some() { "quick" } else { tier }, "exploration");
+    if !crate::common::supervise::install_if_child("VERIF_C19_CHILD", HANG_SECS) {
+        crate::common::supervise::supervise("C19", tier, "exploration", &replay, "VERIF_C19_CHILD", HANG_SECS, &|_tag, b, how, hang| {
+            let text = String::from_utf8_lossy(b).to_string();
+            Violation::new(if hang { "non-termination" } else { "abort" }, format!("loading/serving this configuration {how}"), json!({"engine":"c19","yaml":text})).sig("how", if hang { "hang" } else { "abort" })
+        });
+    }
     let thorough = tier == "thorough";
-    start_watchdog();
     crate::enet::set_shard(29);
     let tally = Tally::default();
     let dns_queue: Mutex<Vec<(String, String)>> = Mutex::new(vec![]);
